@@ -410,6 +410,21 @@ class Ctx:
         shutil.rmtree(self.rundir, ignore_errors=True)
 
 
+def edge_label_coverage(ctx, edges, label, name, floor):
+    """vacuity guard for the bounded models (the state machines have one Next with the action as a parameter, so TLC's own
+    per-action coverage says nothing): the explored edges are counted per action label, the table goes into the evidence
+    file, and a model that explored fewer than `floor` different labels - an alphabet that silently lost letters - is a
+    machinery failure, not a passed check"""
+    counts = {}
+    for e in edges:
+        k = label(e)
+        counts[k] = counts.get(k, 0) + 1
+    ctx.note(f"{name}_edges_per_action_label", dict(sorted(counts.items())))
+    if len(counts) < floor:
+        raise MachineryError(f"{name}: the bounded model explored only {len(counts)} action labels (floor {floor}): {sorted(counts)}")
+    return counts
+
+
 # --------------------------------------------------------------------------- findings
 
 
